@@ -1674,6 +1674,15 @@ func (s *TO2Server) to2Done2(ctx context.Context, msg io.Reader) (*done2Msg, err
 		return nil, fmt.Errorf("nonce from TO2.ProveDevice did not match TO2.Done")
 	}
 
+	// Done ends the service info phase, so that phase must have taken place:
+	// at least the device's devmod, which always comes first, must have been
+	// received in full
+	if _, _, devmodComplete, err := s.Session.Devmod(ctx); errors.Is(err, ErrNotFound) || (err == nil && !devmodComplete) {
+		return nil, fmt.Errorf("TO2.Done received before the device service info was exchanged")
+	} else if err != nil {
+		return nil, fmt.Errorf("error getting devmod state: %w", err)
+	}
+
 	// If the Credential Reuse Protocol is being used (replacement HMAC is not
 	// found), then immediately complete TO2 without replacing the voucher.
 	replacementHmac, err := s.Session.ReplacementHmac(ctx)
